@@ -59,6 +59,8 @@ def components():
     add('r1', lambda i: [('s%d' % i, R(SUB))])
     add('r1b', lambda i: [('s%d' % i, R(SUB, 'bare'))])
     add('r2i', lambda i: [('s%d' % i, R(PT, 'inst', {'x': 1}))])
+    add('r2v', lambda i: [('s%d' % i, dict(R(PT, 'var', {'x': 1}), var='proto%d' % i))])
+    add('rbv', lambda i: [('s%d' % i, dict(R(BAG, 'var', {'num': 1, 'objs': [5]}), var='protob%d' % i))])
     add('rvec', lambda i: [('s%d' % i, R(VEC))])
     add('rbag', lambda i: [('s%d' % i, R(BAG))])
     add('rs', lambda i: [('t%d' % i, I(1)), ('u%d' % i, RS(F('t%d' % i), _sel_table(), 0))])
